@@ -112,7 +112,7 @@ func checkC09(c *Ctx) error {
 	c.Rule = "seeded triples (configuration, partition into 2-5 fragments with attribute-level splits of services and meta, contiguous runs of calls/tags/decorators, arbitrary partition of mappings, whole argument lists, plus decoy values in earlier fragments that later ones override) x file/pattern layouts whose glob order differs from the lexical order of cleaned paths (c-d/ vs c/, upper/lower case, ./x/../x, explicit file before a glob). Oracles: byte equality of -o between (A) the single-file form, (B) the split form, (C) the single-file form of the reference merge of the fragments in the expected file order, (D) pre-merged neighbours (associativity) and (E) the split form with empty files inserted (identity); (H) re-spelled with anchors/merge keys; (I) invalid configurations (duplicate tag, shared getter, cycle, scope conflict, dangling reference - possibly with halves in different fragments): same exit status and diagnostics split and unsplit. distinct = distinct (fragments, layout); non-trivial = >=2 fragments with at least one overridden value or one appended list spanning fragments"
 	c.Assumptions = []string{"reference merge engine/ref.Merge (B.1)", "expected file order: patterns in argv order, inside a pattern bytewise order of filepath.Clean-ed matches", "the splitter is validated on every case: the reference merge of its fragments must give the original configuration back, else the case is a harness failure"}
 	w := c.W
-	n := c.Pick(500, 16000)
+	n := c.Pick(500, 8000)
 	Par(n, 16, func(i int) {
 		r := rand.New(rand.NewSource(c.Seed*92821 + int64(i)))
 		o := gen.DefaultOpts()
